@@ -44,6 +44,15 @@ CLAIMED = {
         text="Host models (shape-computation models + rule hosts) are re-declared with symbolic input dims (shared names, distinct names for equal sizes, unnamed, leading-dim only); optimize() runs once per declared model; for every binding of <=3 symbols to {0,1,2,3,7} symonnx interprets original and optimized model at the bound shapes and z3 decides equality for all input values; a binding on which exactly one model fails is a counterexample (same accepted inputs).",
         note=S_NOTE + " Bindings are enumerated over {0,1,2,3,7}; values under each binding are decided by z3.",
         technique="translation validation under enumerated shape bindings: symbolic ONNX semantics, z3 equivalence, onnxruntime replay"),
+    "C07": dict(
+        category="translation_validation", design_ref="§5 C07", engine="S",
+        text="Ten generated rules (re-emission via a different op, operand swap, double transpose/negation, x*1, two-output pattern, replacement with a new initializer, as_function, remove_nodes=False) whose p==r is itself proved on the k=1 host; hosts with k<=3 separated/adjacent instances, matched outputs that are graph outputs, intermediates with extra consumers, instances inside If bodies (depth<=2), Loop bodies and model-local functions, initializer name clashes. symonnx + z3 decide [[M]] == [[rewrite(M,[rule])]] for all inputs; validity, signature, unmatched-node multiset and minimum application count are side verdicts.",
+        note=S_NOTE + " Rules must be terminating (a replacement containing its own pattern makes the rewriter loop: property of the rule). Metadata merging unchecked.",
+        technique="translation validation of generated rewrite rules on generated hosts: symbolic ONNX semantics, z3 equivalence, structural side verdicts"),
+    "C10": dict(
+        category="translation_validation", design_ref="§5 C10", engine="S",
+        text="Matrix source/target 18..25 x entry {ir.Model, ModelProto} x fallback {True, False} over models with the three adapter ops (GroupNormalization exact, DFT/GridSample uninterpreted over canonical attributes), unchanged ops, If-subgraphs, model-local functions, initializer-inputs. symonnx interprets each side under the opset it DECLARES (schema arity/attribute validation), so a half-converted model is a semantic counterexample; z3 decides equality for all inputs; declared version, function opsets, signature, initializers are side verdicts.",
+        note=S_NOTE, technique="translation validation keyed by declared opset: symbolic ONNX semantics, z3 equivalence"),
     "C20": dict(
         category="other", design_ref="§5 C20", engine="X",
         text="CrossHair/z3 symbolic execution of the real save_model_with_external_data with ir.save stubbed: which initializers are uninitialised, path shape, verbose/tqdm and whether the save faults are solver variables; refusal-before-write, single call with <basename>.data, exception propagation and object identity of the initializers are decided over all combinations. Narrow: what onnx_ir.save does per file-system call is outside the claim.",
